@@ -46,13 +46,46 @@ DEBUG = False
 MUTATING = ('open.w', 'pickle.dump', 'unlink', 'replace')
 
 
+class LockTable:
+    """Who holds which lock FILE.  A flock is a lock on the inode behind the path: when the lock file is
+    unlinked, the next FileLock(path) creates a new file, i.e. a different lock (a new *generation* of the
+    path), whoever still holds the old one."""
+
+    def __init__(self):
+        self.gen = {}
+        self.held = {}                  # (path, generation) -> (owner, FileLock object)
+
+    def get(self, path):
+        """holder of the lock file the path names NOW"""
+        return self.held.get((path, self.gen.get(path, 0)))
+
+    def take(self, path, owner, obj):
+        key = (path, self.gen.get(path, 0))
+        self.held[key] = (owner, obj)
+        return key
+
+    def drop(self, key, obj):
+        h = self.held.get(key)
+        if h is not None and h[1] is obj:
+            del self.held[key]
+
+    def unlinked(self, path):
+        self.gen[path] = self.gen.get(path, 0) + 1
+
+    def everyone(self, path):
+        """owners of every generation of the path (more than one = the lock file was replaced under a holder)"""
+        return [o for (p, g), (o, _) in sorted(self.held.items(), key=lambda kv: kv[0][1]) if p == path]
+
+
 class InstrFileLock:
-    """`filelock.FileLock` reduced to its contract, observable and schedulable."""
+    """`filelock.FileLock` reduced to its contract, observable and schedulable: one holder per lock FILE
+    (the file is created on the first attempt, as filelock does)."""
 
     def __init__(self, run, path, *a, **k):
         self.run = run
         self.path = str(path)
         self.lid = _os.path.basename(self.path)[-14:]
+        self.key = None
 
     @property
     def owner(self):
@@ -62,21 +95,24 @@ class InstrFileLock:
     def acquire(self, timeout=None, *a, **k):
         self.run.sched.yield_point(('lock.acquire', self, self.path, True))
         me = self.run.me()
+        if not _os.path.exists(self.path):
+            try:
+                builtins.open(self.path, 'a').close()
+            except OSError:
+                pass
         if self.run.holders.get(self.path) is None:
-            self.run.holders[self.path] = (me, self)
+            self.key = self.run.holders.take(self.path, me, self)
             return self
         raise self.run.sessions.Timeout(self.path)
 
     def release(self, force=False):
         self.run.sched.yield_point(('lock.release', self, self.path))
-        h = self.run.holders.get(self.path)
-        if h is not None and h[1] is self:
-            del self.run.holders[self.path]
+        if self.key is not None:
+            self.run.holders.drop(self.key, self)
 
     @property
     def is_locked(self):
-        h = self.run.holders.get(self.path)
-        return h is not None and h[1] is self
+        return self.key is not None and self.run.holders.held.get(self.key, (None, None))[1] is self
 
 
 class _PathShim:
@@ -98,7 +134,14 @@ class _OsShim:
 
     def unlink(self, p, *a, **k):
         self._run.fileop('unlink', p)
-        return _os.unlink(p, *a, **k)
+        if str(p) == self._run.datafile and self._run.take_fault(2):
+            raise PermissionError(13, 'planned fault: os.unlink fails', str(p))
+        r = _os.unlink(p, *a, **k)
+        if str(p).endswith('.lock'):
+            self._run.holders.unlinked(str(p))      # the path now names no lock file: the next one is another lock
+            if str(p) == self._run.lockpath:
+                self._run.lockfile_unlinked.append(self._run.me())
+        return r
 
     remove = unlink
 
@@ -121,8 +164,23 @@ class _PickleShim:
         self._run = run
 
     def load(self, f, *a, **k):
-        self._run.fileop('pickle.load', getattr(f, 'name', ''))
-        return _pickle.load(f, *a, **k)
+        name = getattr(f, 'name', '')
+        self._run.fileop('pickle.load', name)
+        if str(name) == self._run.datafile and self._run.take_fault(0):
+            raise _pickle.UnpicklingError('planned fault: the session file cannot be read')
+        return self._odd(str(name) == self._run.datafile, _pickle.load(f, *a, **k))
+
+    def loads(self, data, *a, **k):
+        # bytes read from the file this actor opened last
+        ours = self._run.last_read.get(self._run.me()) == self._run.datafile
+        return self._odd(ours, _pickle.loads(data, *a, **k))
+
+    def _odd(self, ours, value):
+        """planned fault 1: the stored expiry comes back as a datetime that cannot be compared with now()"""
+        if ours and isinstance(value, tuple) and len(value) == 2 and isinstance(value[1], _dt.datetime) \
+                and self._run.take_fault(1):
+            return (value[0], value[1].replace(tzinfo=_dt.timezone.utc))
+        return value
 
     def dump(self, obj, f, *a, **k):
         self._run.fileop('pickle.dump', getattr(f, 'name', ''))
@@ -164,18 +222,24 @@ class _LockingClock:
 
 
 class FileRun:
-    def __init__(self, n, file0, lt=None):
+    def __init__(self, n, file0, lt=None, scripts=None):
         from cherrypy.lib import sessions, locking
         self.sessions = sessions
         self.locking = locking
         self.n = n
         self.lt = list(lt or []) + [False] * n
+        self.scripts = (list(scripts or []) + ['m'] * n)[:n]
         self.timer_expired = {}
         self.sweeps = 0
         self.tmp = tempfile.mkdtemp(prefix='c13s-')
         self.datafile = _os.path.join(self.tmp, 'session-' + SID)
         self.lockpath = self.datafile + '.lock'
-        self.holders = {}
+        self.holders = LockTable()
+        self.lockfile_unlinked = []
+        self.fault = {}                 # actor -> armed fault kind
+        self.faults_consumed = []
+        self.last_read = {}
+        self.faults_armed = []
         self.sched = S.Sched(interesting=self._interesting)
         self.clock = RAM.FakeDatetimeModule()
         if file0 is not None:
@@ -225,9 +289,22 @@ class FileRun:
     def _open(self, path, mode='r', *a, **k):
         kind = 'open.w' if any(c in mode for c in 'wax+') else 'open.r'
         self.fileop(kind, path)
+        if kind == 'open.r':
+            self.last_read[self.me()] = str(path)
+        if kind == 'open.r' and str(path) == self.datafile and self.take_fault(0):
+            raise IOError(5, 'planned fault: the session file cannot be opened', str(path))
         if kind == 'open.r' and str(path) == self.datafile and not _os.path.exists(path):
             self.seen[self.me()] = self.version        # "nothing there" is what this actor has seen
         return builtins.open(path, mode, *a, **k)
+
+    def take_fault(self, kind):
+        """Is a fault of this kind armed for the calling actor?  (consumes it)"""
+        me = self.me()
+        if self.fault.get(me) == kind:
+            del self.fault[me]
+            self.faults_consumed.append((me, kind))
+            return True
+        return False
 
     def fileop(self, kind, path):
         """Yield, then (at execution time) evaluate the statement's predicates on this operation."""
@@ -236,10 +313,9 @@ class FileRun:
         if path != self.datafile or self.sched.current() is None:
             return
         me = self.me()
-        h = self.holders.get(self.lockpath)
-        holder = h[0] if h else None
-        if kind in MUTATING and holder != me:
-            self.unlocked_ops.append('%s:%s(lock held by %s)' % (me, kind, holder or 'nobody'))
+        owners = self.holders.everyone(self.lockpath)
+        if kind in MUTATING and me not in owners:
+            self.unlocked_ops.append('%s:%s(lock held by %s)' % (me, kind, ','.join(owners) or 'nobody'))
         if kind in ('exists', 'open.r', 'pickle.load'):
             self.seen[me] = self.version               # what this actor's view of the file is based on
 
@@ -254,7 +330,7 @@ class FileRun:
                 self.lost_why = self.lost_why or '%s saved over a version it had not loaded' % name
             self.version += 1
             self.saves += 1
-        elif after == 'A':
+        elif after == 'A' and name == 'S':      # a request that deletes its session under the lock destroys on purpose
             if self.seen.get(name) != self.version:
                 self.lost = True
                 self.lost_why = self.lost_why or \
@@ -263,6 +339,8 @@ class FileRun:
     # ---- real code ---------------------------------------------------------------------------------
     def _worker(self, i):
         FS = self.sessions.FileSession
+
+        script = self.scripts[i]
 
         def body():
             kw = {'lock_timeout': 5} if self.lt[i] else {}
@@ -276,9 +354,19 @@ class FileRun:
                 if s.locked or (h and h[0] == 'r%d' % i):
                     self.timeout_leak.append('r%d' % i)
                 return 'failed'
-            v = s.get('n', 0)
-            s['n'] = v + 1
-            s.save()
+            try:
+                for op in script:
+                    if op == 'm':
+                        v = s.get('n', 0)
+                        s['n'] = v + 1
+                    elif op == 'd':
+                        s.delete()
+                    elif op == 'g':
+                        s.regenerate()
+                s.save()
+            finally:
+                if s.locked:                # what the fail-safe on_end_request hook `sessions.close` does
+                    s.release_lock()
             return 'done'
         return body
 
@@ -343,6 +431,12 @@ class FileRun:
             return '-'
         if tok.startswith('X') or tok.startswith('P'):
             return '-' if self.poll(int(tok[1:]), tok.startswith('X')) else None
+        if tok.startswith('F'):             # arm a fault for the sweep's next matching file operation
+            if sched.threads['S'].status == 'done':
+                return None
+            self.fault['S'] = int(tok[1:])
+            self.faults_armed.append(int(tok[1:]))
+            return '-'
         name = 'S' if tok in ('S', 'S0') else 'r' + tok
         st = sched.threads[name]
         if name == 'S' and st.status != 'done' and st.pending[0] == 'sweep.start':
@@ -352,9 +446,7 @@ class FileRun:
         sched.step(name)
         self._fs_cache = None
         self._account(name, before, self.file_state())
-        inside = [n for n, t in sched.threads.items()
-                  if self.holders.get(self.lockpath) and self.holders[self.lockpath][0] == n]
-        self.max_occ = max(self.max_occ, len(inside))
+        self.max_occ = max(self.max_occ, len(set(self.holders.everyone(self.lockpath))))
         if st.status == 'done' and st.exc is not None and name not in self.errors:
             self.errors[name] = type(st.exc).__name__
             if isinstance(st.exc, (common.HarnessError, S._Abandoned)):
@@ -459,6 +551,9 @@ class FileRun:
         return {'max_occ': self.max_occ, 'lost': self.lost, 'lost_why': self.lost_why, 'saves': self.saves,
                 'unlocked_ops': list(self.unlocked_ops), 'errors': dict(self.errors),
                 'timeout_leak': list(self.timeout_leak), 'livelock': list(self.livelock),
+                'faults_armed': list(self.faults_armed), 'faults_consumed': list(self.faults_consumed),
+                'lockfile_unlinked': list(self.lockfile_unlinked),
+                'all_holders': self.holders.everyone(self.lockpath),
                 'held_by': [h[0]] if h else [],
                 'blocked': [r for r in reqs if not sched.done(r) and not sched.enabled(r)],
                 'unfinished': [r for r in reqs if not sched.done(r)],
@@ -484,7 +579,7 @@ _MISSING = object()
 
 def run_case(case):
     """Returns (o0, [(tok, observation, label)…], final, observations)."""
-    run = FileRun(case['n'], case.get('file'), case.get('lt'))
+    run = FileRun(case['n'], case.get('file'), case.get('lt'), case.get('scripts'))
     try:
         o0 = run.observation()
         trace = []
@@ -503,13 +598,14 @@ def run_case(case):
 
 def run_policy(case, order, preempt, prefix=(), sweeps=1, limit=200):
     """Adaptive schedule (see c13_ramn.run_policy); `prefix` tokens run first."""
-    run = FileRun(case['n'], case.get('file'), case.get('lt'))
+    run = FileRun(case['n'], case.get('file'), case.get('lt'), case.get('scripts'))
     try:
         o0 = run.observation()
         trace = []
         for t in prefix:
             lab = run.step(t)
-            trace.append((t, run.observation(), lab))
+            if lab is not None:
+                trace.append((t, run.observation(), lab))
 
         def idle():
             sw = run.sched.threads['S']
@@ -551,8 +647,9 @@ def model_line(case, o0, trace, final, fuel=8):
     lt = (list(case.get('lt') or []) + [False] * case['n'])[:case['n']]
     # an unsuccessful poll is a turn of that request which changes nothing
     tr = '|'.join('%s@%s@%s' % (t[1:] if t.startswith('P') else t, nats(o), lab) for t, o, lab in trace) or '-'
-    return 'fileT %s %s %d %d %s %s %s' % ('A' if f is None else '%d:%d' % tuple(f), nats([1 if x else 0 for x in lt]),
-                                           case['n'], fuel, nats(o0), tr, nats(final))
+    scripts = (list(case.get('scripts') or []) + ['m'] * case['n'])[:case['n']]
+    return 'fileT %s %s %s %d %d %s %s %s' % ('A' if f is None else '%d:%d' % tuple(f), nats([1 if x else 0 for x in lt]),
+                                              ';'.join(sc or '-' for sc in scripts), case['n'], fuel, nats(o0), tr, nats(final))
 
 
 INITS = [('live', [5, 100], []), ('expired', [5, 0], ['K3']), ('expiring', [5, 1], []), ('absent', None, [])]
@@ -582,7 +679,68 @@ def gen_random(rng):
             continue
         toks += [a] * rng.choice([1, 1, 2, 2, 3, 4, 6])
     lt = [rng.random() < 0.5 for _ in range(n)]
-    return {'kind': 'fsched', 'n': n, 'file': file0, 'sched': toks[:max(L, len(prefix))], 'init': name, 'lt': lt}
+    toks = toks[:max(L, len(prefix))]
+    if rng.random() < 0.25:                     # a fault for the sweep somewhere
+        toks.insert(rng.randrange(len(toks) + 1), 'F%d' % rng.choice([0, 1, 2, 2]))
+    scripts = [rng.choice(SCRIPTS) for _ in range(n)]
+    return {'kind': 'fsched', 'n': n, 'file': file0, 'sched': toks, 'init': name, 'lt': lt, 'scripts': scripts}
+
+
+SCRIPTS = ['m', 'm', 'm', 'm', 'mm', 'md', 'dm', 'mdm', 'mg', 'gm', 'mgm', 'd', '']
+
+
+def gen_fault(rng):
+    """The sweep FAILS inside its locked region (open / load / expiry comparison / unlink raises once) on a
+    live, expired or expiring file, with requests for that id before, during and after the failing sweep."""
+    n = rng.choice([1, 2, 2])
+    name, file0, prefix = rng.choice(INITS[:3])
+    actors = [str(i) for i in range(n)]
+    toks = list(prefix)
+    if rng.random() < 0.7:
+        toks += actors                                  # past __init__ before the sweep
+    if rng.random() < 0.5 and 'K3' not in toks:
+        toks.append('K3')                               # let the session expire: the sweep will unlink
+    toks.append('F%d' % rng.choice([0, 1, 1, 2, 2]))
+    toks += ['S'] * rng.randint(1, 4)
+    for a in actors:
+        if rng.random() < 0.5:
+            toks += [a] * rng.randint(1, 3)             # requests arrive while the sweep is inside
+    toks += ['S'] * rng.randint(2, 6)
+    rest = []
+    for a in actors:
+        rest += [a] * rng.randint(3, 9)
+    rest += ['S'] * rng.randint(0, 6)
+    rng.shuffle(rest)
+    return {'kind': 'fsched', 'n': n, 'file': file0, 'sched': toks + rest, 'init': name,
+            'lt': [rng.random() < 0.4 for _ in range(n)], 'scripts': [rng.choice(['m', 'm', 'mm', 'dm']) for _ in range(n)]}
+
+
+def gen_delete(rng):
+    """A request deletes / regenerates its session INSIDE the locked region and goes on working, while
+    another request for that id is already past __init__ and waits for (polls) the lock."""
+    n = rng.choice([2, 2, 3])
+    name, file0, prefix = rng.choice(INITS[:3])
+    actors = [str(i) for i in range(n)]
+    rng.shuffle(actors)
+    a = actors[0]
+    scripts = ['m'] * n
+    scripts[int(a)] = rng.choice(['mdm', 'dm', 'mdmm', 'mgm', 'dmdm', 'md'])
+    for b in actors[1:]:
+        if rng.random() < 0.3:
+            scripts[int(b)] = rng.choice(['mm', 'dm', 'md'])
+    toks = list(prefix) + actors                        # everybody passes __init__ while the file exists
+    toks += [a] * rng.randint(1, 6)                     # A takes the lock, maybe loads, maybe deletes
+    for b in actors[1:]:
+        toks += [b] * rng.choice([1, 1, 2])             # the others arrive at their acquire
+        if rng.random() < 0.3:
+            toks.append('P' + b)
+    rest = []
+    for x in actors:
+        rest += [x] * rng.randint(3, 10)
+    rest += ['S'] * rng.randint(0, 5)
+    rng.shuffle(rest)
+    return {'kind': 'fsched', 'n': n, 'file': file0, 'sched': toks + rest, 'init': name,
+            'lt': [False] * n, 'scripts': scripts}
 
 
 def gen_timeout(rng):
